@@ -403,8 +403,12 @@ func pre_lemmaShuffleRoundTrip(c *Shuffle, k []byte, s []byte) bool {
 	return c != nil && len(k) == 24 && len(s) == 32 && vs.Forall(0, 32, func(j int) bool { return s[j] == specShuffleEncChar(c, k, j) })
 }
 func lemmaShuffleRoundTrip(c *Shuffle, k []byte, s []byte) bool {
-	d0, d1 := specDecByte(s, 0), specDecByte(s, 1)
-	return specAllB64(s) && d0 == k[0] && d1 == k[1] && vs.Forall(2, 24, func(i int) bool {
-		return specDecByte(s, i)^specShuffleKS(c, d0, d1, i) == k[i]
-	})
+	// the salt bytes come back unchanged (so DecryptKey selects the stream EncryptKey used) ...
+	return specAllB64(s) && specDecByte(s, 0) == k[0] && specDecByte(s, 1) == k[1]
+}
+
+// @ lemma lemmaShuffleRoundTripBytes pre=pre_lemmaShuffleRoundTrip props=C20
+func lemmaShuffleRoundTripBytes(c *Shuffle, k []byte, s []byte) bool {
+	// ... and under that stream every other byte comes back
+	return vs.Forall(2, 24, func(i int) bool { return specDecByte(s, i)^specShuffleKS(c, k[0], k[1], i) == k[i] })
 }
